@@ -12,6 +12,7 @@ import (
 	"bufio"
 	"fmt"
 	"os"
+	"runtime"
 	"strconv"
 	"strings"
 	"sync/atomic"
@@ -88,6 +89,11 @@ func workerMain() int {
 				fmt.Println("fail " + strings.ReplaceAll(err.Error(), "\n", " "))
 			} else {
 				lock = l
+				// A long-running holder goes through garbage collections
+				// while it holds the lock; do so before reporting.
+				runtime.GC()
+				time.Sleep(2 * time.Millisecond)
+				runtime.GC()
 				fmt.Println("ok")
 			}
 		case "release":
@@ -150,6 +156,9 @@ func racerMain() int {
 			continue
 		}
 		journalLine(jf, "BEGIN", pid, mono())
+		if next(4) == 0 {
+			runtime.GC()
+		}
 		if h := next(maxHold + 1); h > 0 {
 			time.Sleep(time.Duration(h) * time.Microsecond)
 		}
